@@ -169,7 +169,7 @@ func (q *queryOptions) FurthestInclusiveDistanceLimit(limit s1.ChordAngle) *quer
 // option to find a set of candidate edges that can then be filtered
 // further (e.g., using CompareDistance).
 func (q *queryOptions) ClosestConservativeDistanceLimit(limit s1.ChordAngle) *queryOptions {
-	q.distanceLimit = limit.Expanded(minUpdateDistanceMaxError(limit))
+	q.distanceLimit = limit.Expanded(minUpdateDistanceMaxError(limit)).Successor()
 	return q
 }
 
@@ -178,7 +178,7 @@ func (q *queryOptions) ClosestConservativeDistanceLimit(limit s1.ChordAngle) *qu
 // edges whose true distance is greater than or equal to limit will be returned
 // (along with some edges whose true distance is slightly less).
 func (q *queryOptions) FurthestConservativeDistanceLimit(limit s1.ChordAngle) *queryOptions {
-	q.distanceLimit = limit.Expanded(-minUpdateDistanceMaxError(limit))
+	q.distanceLimit = limit.Expanded(-minUpdateDistanceMaxError(limit)).Predecessor()
 	return q
 }
 
